@@ -29,6 +29,24 @@ def make_input(r, kind, bs):
         blobs = [[("rand", 100 + j, 2 * bs + 100)] for j in range(4)] + [[("rand", 200 + j, bs // 3)] for j in range(4)]
         for i in range(60):
             t[b"d%02d" % i] = Node("file", 0o644, data=r.choice(blobs))
+    elif kind == "strategy-mix":
+        # multi-block files whose blocks favour different compressor strategies/filters: exposes per-worker compressor state
+        for i in range(6):
+            segs = []
+            for k in range(r.choice([12, 24])):
+                segs.append((r.choice(["words", "skew", "runs", "rand"]), r.getrandbits(40), bs))
+            t[b"m%02d" % i] = Node("file", 0o644, data=segs)
+    elif kind == "frag-dups":
+        # many distinct incompressible tails spread over several fragment blocks, then duplicates of earlier
+        # ones in random order (so that compared fragment blocks are on disk, in flight or current depending on -Q)
+        n = r.choice([30, 50])
+        blobs = [[("rand", 1000 + j, r.choice([bs // 3, bs // 2 - 1, bs - 7, bs // 5]))] for j in range(n)]
+        for j in range(n):
+            t[b"a%03d" % j] = Node("file", 0o644, data=blobs[j])
+        for j in range(n):
+            t[b"b%03d" % j] = Node("file", 0o644, data=blobs[r.randrange(n)])
+            if j % 7 == 0:
+                t[b"b%03d_big" % j] = Node("file", 0o644, data=[("rand", 5000 + j, 3 * bs)] + blobs[r.randrange(n)])
     elif kind == "mixed":
         tr, _ = gentree.gen_tree(r, bs=bs, max_entries=60)
         for p, n in tr.items():
@@ -47,7 +65,7 @@ def make_input(r, kind, bs):
     return t
 
 
-KINDS = ["alternating", "smallfiles", "duplicates", "mixed", "sparse-tails"]
+KINDS = ["alternating", "smallfiles", "duplicates", "mixed", "sparse-tails", "frag-dups", "strategy-mix"]
 
 
 def check_eventlog(path, oc, tag):
@@ -144,7 +162,12 @@ def run_input(arg):
         tsan = build.build("tsan")
         r = core.rng_for(PROP, "input", idx)
         kind = KINDS[idx % len(KINDS)]
-        comp, extra = r.choice([("xz", []), ("zstd", ["level=19"]), ("gzip", []), ("xz", ["extreme"]), ("lz4", ["hc"]), ("lzma", [])])
+        comp, extra = r.choice([("xz", []), ("zstd", ["level=19"]), ("gzip", []), ("xz", ["extreme"]), ("lz4", ["hc"]), ("lzma", []),
+                                ("gzip", ["default", "filtered", "huffman", "rle", "fixed"]), ("gzip", ["huffman", "rle"]),
+                                ("xz", ["x86", "arm", "sparc"]), ("xz", ["extreme", "powerpc"]), ("lzma", ["extreme"]), ("gzip", ["level=1", "filtered", "fixed"])])
+        if kind == "strategy-mix":
+            comp, extra = [("gzip", ["default", "filtered", "huffman", "rle", "fixed"]), ("xz", ["x86", "arm", "sparc", "extreme"]),
+                           ("gzip", ["huffman", "rle", "level=3"]), ("lzma", ["extreme"])][(idx // len(KINDS)) % 4]
         bs = r.choice([4096, 8192, 16384, 32768])
         oc.features = (kind, comp, bs)
         with core.Scratch("c02") as work:
@@ -311,7 +334,7 @@ def main(tier):
                       "with the NO_THREAD_IMPL serial build; every run's hook log is checked for the ordering invariants; distinct = distinct (input kind, compressor, block size)")
     for v in ("plain", "serial", "tsan"):
         build.build(v)
-    n = 8 if tier == "quick" else 30
+    n = 14 if tier == "quick" else 42
     items = [(i, tier) for i in range(n)]
     for oc in core.pmap(run_input, items):
         rep.add(oc)
